@@ -1228,6 +1228,12 @@ class Config:  # pylint: disable=too-many-instance-attributes
         :param: additional keyword arguments for :meth:`dumps`
         """
         content = self.dumps(format, **kwargs)
+        if not isinstance(content, (bytes, bytearray, memoryview)):
+            # opening the destination truncates it: never do that for content that cannot be written
+            raise TypeError(
+                "a bytes-like object is required, the %s formatter returned '%s'"
+                % (format, type(content).__name__)
+            )
         filename = os.path.expanduser(filename)
         with open(filename, "wb") as file:
             file.write(content)
